@@ -30,6 +30,7 @@ type frame struct {
 	blockState map[*ssa.BasicBlock]*State // state at block entry (after phis/havoc)
 	inExc  bool
 	havocExceptional bool // havoc for an exceptional edge (stable-on-return ghosts are not stable)
+	inDeferred int // >0 while a deferred call of this frame is being executed
 }
 
 type exitEdge struct {
@@ -1302,6 +1303,8 @@ func (fr *frame) assertTarget(a *Clause) *ssa.Call {
 // condition than the current one runs conditionally.
 func (fr *frame) runDeferred(d *deferred, st *State, reach string, xedges *[]inEdge) string {
 	ft := fr.ft
+	fr.inDeferred++
+	defer func() { fr.inDeferred-- }()
 	if d.cond == reach || d.cond == "true" || d.cond == "" {
 		return fr.doCall(nil, d.call, d.fnv, d.args, st, reach, xedges, d.pos)
 	}
